@@ -166,3 +166,13 @@ package backend
 //@   modifies inferred:(*backend).Compact ghost.bw_n ghost.bw_kind ghost.bw_key ghost.bw_val ghost.bw_old ghost.bw_ttl ghost.commits ghost.last_batch ghost.last_err ghost.batch_open ghost.floor ghost.floor_set
 //@   ensures [floor-monotone] old(floor_set) ==> floor_set && floor >= old(floor)
 //@   ensures [accepted] err == nil ==> resp != nil && floor_set && floor >= resp.Header.Revision
+
+// ---- C13: advertised partitions ----
+// Clients stream [k_i, k_i+1) piece by piece and the scanner never adjusts the outer borders
+// of what it is given, so an advertised inner border must not fall inside one key's versions.
+//@ func (*backend).GetPartitions(ctx, r) (resp, err)
+//@   props C13
+//@   nosafety
+//@   requires wf_backend(b) && r != nil
+//@   modifies inferred:(*backend).GetPartitions
+//@   ensures [advertised-inner-borders-are-index-records] err == nil ==> forall(i, 1 <= i && i < len(resp.PartitionKeys)-1, is_internal_key(resp.PartitionKeys[i]) ==> key_rev(resp.PartitionKeys[i]) == 0)
